@@ -125,6 +125,95 @@ MUTANTS = {
                             pass""")],
         why='window not cleared: a later want can be satisfied by stale output only in odd cases; '
             'mostly harmless by the trailing-sequence rule -> expected to be hard to see'),
+
+    # ------------------------------------------------------------------ C03
+    'c03_bare_raise_return_true': dict(prop='C03', edits=[(CH,
+        """    if exc_want is None:
+        # Reraise the error if the want message is formatted like an exception
+        raise""",
+        """    if exc_want is None:
+        return True""")],
+        why='exception + non-traceback want silently passes'),
+    'c03_break_after_expected_exception': dict(prop='C03', edits=[(DE,
+        """                            want = part.want
+                            checker.check_exception(exc_got, want, runstate)
+                        else:
+                            raise""",
+        """                            want = part.want
+                            checker.check_exception(exc_got, want, runstate)
+                            break
+                        else:
+                            raise""")],
+        why='statements after an expected exception no longer run'),
+    'c03_strip_details_drops_class': dict(prop='C03', edits=[(CH,
+        """    return msg[start: end]""",
+        """    return ''""")],
+        why='IGNORE_EXCEPTION_DETAIL no longer compares the class'),
+    'c03_ied_always_on': dict(prop='C03', edits=[(CH,
+        """    if not flag and runstate['IGNORE_EXCEPTION_DETAIL']:""",
+        """    if not flag:""")],
+        why='the message is ignored even without IGNORE_EXCEPTION_DETAIL'),
+    'c03_ignore_want_hides_exception': dict(prop='C03', edits=[(DE,
+        """                    except Exception:
+                        if part.want:
+                            # A failure may be expected""",
+        """                    except Exception:
+                        if part.want and runstate['IGNORE_WANT']:
+                            pass
+                        elif part.want:
+                            # A failure may be expected""")],
+        why='IGNORE_WANT swallows any exception of a statement that has a want'),
+
+    # ------------------------------------------------------------------ C09
+    'c09_revert_f1': dict(prop='C09', edits=[(DE,
+        """                            if 0 < tb_lineno <= len(orig_lines):
+                                failed_ctx = orig_lines[tb_lineno - 1]""",
+        """                            if True:
+                                failed_ctx = orig_lines[tb_lineno - 1]""")],
+        why='finding F1 back'),
+    'c09_revert_f4': dict(prop='C09', edits=[(DE,
+        """                    self.failed_tb_lineno = getattr(ex_value, 'lineno', None) or 1
+                    if on_error == 'raise':
+                        raise
+                    break""",
+        """                    self.failed_tb_lineno = getattr(ex_value, 'lineno', None) or 1
+                    raise""")],
+        why='finding F4 back'),
+    'c09_generic_handler_narrowed': dict(prop='C09', edits=[(DE,
+        """                except Exception as _ex_dbg:
+                    ex_type, ex_value, tb = sys.exc_info()""",
+        """                except (ValueError, KeyError, AssertionError, ZeroDivisionError, RuntimeError,
+                        TypeError, NameError, AttributeError, IndexError, OSError) as _ex_dbg:
+                    ex_type, ex_value, tb = sys.exc_info()""")],
+        why='uncommon exception classes (MemoryError, custom) escape on_error=return'),
+    'c09_gotrepr_reraises': dict(prop='C09', edits=[(DE,
+        """                    self.exc_info = sys.exc_info()
+                    if on_error == 'raise':
+                        raise ex.orig_ex
+                    break""",
+        """                    self.exc_info = sys.exc_info()
+                    raise ex.orig_ex""")],
+        why='a repr that raises escapes'),
+    'c09_runner_raises_for_single': dict(prop='C09', edits=[(RU,
+        """    on_error = 'return' if n_total > 1 else 'raise'
+    on_error = 'return'
+""",
+        """    on_error = 'return' if n_total > 1 else 'raise'
+""")],
+        why='native run of a module with one doctest propagates its failure'),
+    'c09_import_error_only_importerror': dict(prop='C09', edits=[(DE,
+        """                    try:
+                        self._import_module()
+                    except Exception:""",
+        """                    try:
+                        self._import_module()
+                    except ImportError:""")],
+        why='module import failing with RuntimeError(wrapped) escapes'),
+    'c09_failed_lineno_innermost_frame': dict(prop='C09', edits=[(DE,
+        """                            found_lineno = sub_tb.tb_lineno
+                            break""",
+        """                            found_lineno = sub_tb.tb_lineno""")],
+        why='E4: failing line taken from the innermost doctest frame (helper) instead of the calling statement'),
 }
 
 # Behaviour-preserving (with respect to the properties) edits: every check must stay green.
